@@ -732,7 +732,29 @@ int cgi_read_zone(cgns_zone *zone)
     return CG_OK;
 }
 
+/* Family_t and UserDefinedData_t nest: their readers call themselves.  In a
+   damaged file a child can be the node itself or one of its ancestors; the
+   nesting is therefore limited (cg_goto reaches CG_MAX_GOTO_DEPTH levels) */
+#define CGI_MAX_NESTING (4 * CG_MAX_GOTO_DEPTH)
+
+static int cgi_read_family_1(cgns_family *family);
+
 int cgi_read_family(cgns_family *family) /* ** FAMILY TREE ** */
+{
+    static int nesting = 0;
+    int ier;
+
+    if (nesting >= CGI_MAX_NESTING) {
+        cgi_error("Family_t nodes nested deeper than %d levels", CGI_MAX_NESTING);
+        return CG_ERROR;
+    }
+    nesting++;
+    ier = cgi_read_family_1(family);
+    nesting--;
+    return ier;
+}
+
+static int cgi_read_family_1(cgns_family *family)
 {
     int n, linked, in_link = family->link ? 1 : family->in_link;
     double *id;
@@ -6355,7 +6377,26 @@ int cgi_read_user_data_from_list(int in_link, _childnode_t* nodelist, int nnodes
     return CG_OK;
 }
 
+static int cgi_read_user_data_1(int in_link, double parent_id, int *nuser_data,
+                       cgns_user_data **user_data);
+
 int cgi_read_user_data(int in_link, double parent_id, int *nuser_data,
+                       cgns_user_data **user_data)
+{
+    static int nesting = 0;   /* see cgi_read_family */
+    int ier;
+
+    if (nesting >= CGI_MAX_NESTING) {
+        cgi_error("UserDefinedData_t nodes nested deeper than %d levels", CGI_MAX_NESTING);
+        return CG_ERROR;
+    }
+    nesting++;
+    ier = cgi_read_user_data_1(in_link, parent_id, nuser_data, user_data);
+    nesting--;
+    return ier;
+}
+
+static int cgi_read_user_data_1(int in_link, double parent_id, int *nuser_data,
                        cgns_user_data **user_data)
 {
     double *id, *idi;
